@@ -274,6 +274,9 @@ fn gen_poly2(r: &mut Rng, max_holes: usize) -> Poly2 {
     if r.below(14) == 0 {
         return probe_collinear(r);
     }
+    if max_holes >= 2 && r.below(12) == 0 {
+        return shared_corner(r);
+    }
     let (family, outer, c, rad): (&'static str, Vec<P2>, P2, f64) = match r.below(7) {
         0 => {
             let n = 3 + r.below(10);
@@ -328,6 +331,35 @@ fn gen_poly2(r: &mut Rng, max_holes: usize) -> Poly2 {
     let outer = rotate_start(r, outer);
     let holes = holes_in_disc(r, c, rad, nh);
     Poly2 { family, outer, holes }
+}
+
+/// an L-shaped outline whose reflex corner (the origin) is the outline vertex nearest to each of two or three small holes
+/// lying in different directions from it: every hole is bridged to that same vertex (or to a vertex of a hole merged before),
+/// so `get_closed_loop` has to pick the right copy of a vertex that already carries a bridge, at a reflex corner
+fn shared_corner(r: &mut Rng) -> Poly2 {
+    let (h, w, d, w2) = (4. + 3. * r.unit(), 4. + 3. * r.unit(), 4. + 3. * r.unit(), 4. + 3. * r.unit());
+    let outer = vec![(0., 0.), (0., h), (-w, h), (-w, -d), (w2, -d), (w2, 0.)];
+    let k = 2 + r.below(2);
+    // directions inside the 270-degree interior wedge (90..360 degrees), well apart from its two sides and from each other
+    let mut dirs: Vec<f64> = vec![135., 225., 315.];
+    if k == 2 {
+        dirs.remove(r.below(3));
+    }
+    // any order of cutting
+    if r.bool() {
+        dirs.reverse();
+    }
+    let mut holes = vec![];
+    for t in dirs {
+        let t = (t + 30. * (r.unit() - 0.5)).to_radians();
+        let rho = 0.9 + 0.8 * r.unit();
+        let rad = 0.18 + 0.12 * r.unit();
+        let n = 3 + r.below(6);
+        holes.push(hole(r, n, (rho * t.cos(), rho * t.sin()), rad));
+    }
+    let outer = reverse_if(r, outer);
+    let outer = rotate_start(r, outer);
+    Poly2 { family: "shared-corner", outer, holes }
 }
 
 /// threshold probe of `is_collinear` (1e-5 on the cross product) inside `push`, `close` and the ear loop, and of the
